@@ -162,6 +162,7 @@ class Session:
         self.g.add_writer(self.rw.make())
         self.g.set_resolution(1.0)          # interpolated paths stay short (tens of segments, not thousands)
         self.ctx = []
+        self.raw_text = []
         self.events = []
         self.hook_log = []
         self.with_raw = with_raw
@@ -429,6 +430,7 @@ class Session:
         lines = []
         for ch in chunks:
             text = ch.decode("utf-8", errors="replace")
+            self.raw_text.append(text)
             # a chunk is one write(); split on the configured ending, keep anomalies visible
             body = text[:-len(self.eol)] if text.endswith(self.eol) else text
             parts = body.replace("\r\n", "\n").replace("\r", "\n").split("\n")
@@ -478,8 +480,23 @@ class Session:
         # by the recorder's own bookkeeping
         return hook in getattr(self.g, "_hooks", [])
 
+    def gcoder_view(self):
+        """Cross-oracle: where the bundled printrun.gcoder analyser says the emitted program ends (drift only)."""
+        try:
+            from gscrib.printrun import gcoder
+            a = gcoder.GCode([])
+            for t in self.raw_text:
+                for ln in t.splitlines():
+                    if ln.strip():
+                        a.append(ln, store=False)
+            return {"ok": True, "pos": [qnum(a.current_x, self.U)["v"], qnum(a.current_y, self.U)["v"], qnum(a.current_z, self.U)["v"]],
+                    "rel": bool(a.relative)}
+        except Exception:
+            return {"ok": False, "pos": [0, 0, 0], "rel": False}
+
     def trace(self, meta=None):
-        m = {"dp": self.dp, "U": self.U, "exact": self.exact, "xf": self.with_xf, "SC": self.xf_scale}
+        m = {"dp": self.dp, "U": self.U, "exact": self.exact, "xf": self.with_xf, "SC": self.xf_scale,
+             "gcoder": self.gcoder_view()}
         if meta:
             m.update(meta)
         return {"meta": m, "init": self.init_rep, "ev": self.events}
